@@ -835,8 +835,8 @@ pub fn run(opts: &Opts) -> i32 {
   }
   // quiet panics: they are caught and reported by run_case
   std::panic::set_hook(Box::new(|_| {}));
-  let n_gen = opts.num("layouts", if thorough { 20000 } else { 1500 }) as usize;
-  let n_gen = if prop == "C20" { n_gen / 6 } else { n_gen };
+  let n_gen = opts.num("layouts", if thorough { 30000 } else { 3000 }) as usize;
+  let n_gen = match prop.as_str() { "C20" => n_gen / 12, "C11" => n_gen * 3, "C12" => n_gen * 2, _ => n_gen };
   let per_layout = opts.num("schedules", if thorough { 60 } else { 20 }) as usize;
   let cases = layout_pool(opts, &mut rng, n_gen);
   let known = opts.known();
